@@ -100,11 +100,13 @@ pub struct DocOpts {
     pub no_annotation_xml: bool,
     /// never emit ESI tag names (for oracles that know nothing about ESI: html5ever)
     pub no_esi: bool,
+    /// one document in ten is wrapped in 7-40 nested elements (open-element stack growth steps)
+    pub deep_wrappers: bool,
 }
 
 impl Default for DocOpts {
     fn default() -> Self {
-        DocOpts { max_items: 14, max_depth: 5, islands: true, rawtext: true, misnest: true, comments: true, doctype: true, multibyte: true, odd_attrs: true, max_attrs: 4, small_vocab: true, lt_in_text: false, enc: encoding_rs::UTF_8, amp_safe: false, no_annotation_xml: false, no_esi: false }
+        DocOpts { max_items: 14, max_depth: 5, islands: true, rawtext: true, misnest: true, comments: true, doctype: true, multibyte: true, odd_attrs: true, max_attrs: 4, small_vocab: true, lt_in_text: false, enc: encoding_rs::UTF_8, amp_safe: false, no_annotation_xml: false, no_esi: false, deep_wrappers: true }
     }
 }
 
@@ -558,7 +560,33 @@ impl<'a, 't> Gen<'a, 't> {
 
 pub fn doc(t: &mut Tape<'_>, o: &DocOpts) -> Doc {
     let mut g = Gen { t, o, d: Doc { enc: o.enc, ..Doc::default() }, budget: o.max_items * 3, island_depth: 0 };
+    let mut wrappers: Vec<&'static str> = vec![];
+    if o.deep_wrappers && g.t.chance(1, 10) {
+        let n = *g.t.pick(&[7usize, 8, 9, 15, 16, 17, 31, 33, 40]);
+        for _ in 0..n {
+            let name = *g.t.pick(&["div", "span", "section", "div", "ul", "custom-element"]);
+            g.start_tag(name, Ns::Html, &[], false, false);
+            wrappers.push(name);
+        }
+    }
     g.html_items(0, false, true, None);
+    // close some of the wrappers (innermost first); the rest stays open until the end of input
+    // (only when the content did not end inside an unterminated construct - raw text, comment,
+    // CDATA, foreign island - in which the end tags would not be tags)
+    let tail_ok = g.island_depth == 0
+        && match g.d.toks.last() {
+            None => true,
+            Some(t) => match t.kind {
+                TK::End => t.ns == Ns::Html,
+                TK::Start => t.ns == Ns::Html && !RAW_NAMES.iter().any(|r| r.0.eq_ignore_ascii_case(&t.name)) && !t.name.eq_ignore_ascii_case("plaintext") && g.d.bytes.ends_with(b">"),
+                TK::Text => t.text_type == "Data" && t.ns == Ns::Html,
+                _ => false,
+            },
+        };
+    let close = if wrappers.is_empty() || !tail_ok { 0 } else { g.t.below(wrappers.len() + 1) };
+    for name in wrappers.iter().rev().take(close) {
+        g.end_tag(name, Ns::Html);
+    }
     g.d
 }
 
